@@ -29,7 +29,8 @@ EXPLANATION = (
     'output increments scaled by (max - min), weights clipped to [0,1] with a '
     'leading 1, min added / padded at the front, the last increment dropped '
     'unless clamp_max. The range of the non-monotone sigmoid form and cyclic '
-    'end-point equality are NOT decided.')
+    'end-point equality are NOT decided.'
+    ' The learned missing output (last parameter) is taken off before the cyclic closing column is appended (W4).')
 ASSUMPTIONS = ['tf.nn.softmax outputs are positive and sum to 1; sigmoid in '
                '(0,1); relu6 in [0,6]; documented broadcasting rules',
                'keypoint_output_min <= keypoint_output_max and input_min < '
